@@ -103,6 +103,13 @@ def gen_line(r, pre, toks, ic):
             s += lit
     if r.intn(3) == 0:
         s += val()
+    if s and r.intn(6) == 0:
+        # a decoy: one literal written OVER the line at a random place, so that everything after it keeps
+        # its column (an instance that remembered where it found something in an earlier line finds it
+        # there again - and must still report the first occurrence)
+        lit = r.pick([pre] + [l for _, l in toks])
+        k = r.intn(len(s))
+        s = s[:k] + lit + s[k + len(lit):]
     if ic or r.intn(8) == 0:
         s = flip(r, s)
     if s and r.intn(12) == 0:
